@@ -12,6 +12,7 @@ import subprocess
 import sys
 
 VERIF = os.path.dirname(os.path.dirname(os.path.abspath(__file__)))
+REPO = os.environ.get("VERIF_REPO", REPO)
 ENV = dict(os.environ, GOFLAGS="-mod=mod", GOPROXY="off", GOSUMDB="off", GOTOOLCHAIN="local")
 
 
@@ -31,7 +32,7 @@ def main():
             demo = (os.path.abspath(a[i + 1]), a[i + 2]); i += 3
         else:
             props.append(a[i]); i += 1
-    st = sh(["git", "-C", "/repo", "status", "--porcelain"])
+    st = sh(["git", "-C", REPO, "status", "--porcelain"])
     if st.stdout.strip():
         print("refusing: /repo is not clean"); return 2
     out = {"patch": patch, "checks": {}}
@@ -39,24 +40,24 @@ def main():
     try:
         if demo:
             # the demonstration passes on the unchanged tree
-            demo_dst = os.path.join("/repo", demo[1], os.path.basename(demo[0]))
+            demo_dst = os.path.join(REPO, demo[1], os.path.basename(demo[0]))
             shutil.copy(demo[0], demo_dst)
-            r = sh(["go", "test", "-vet=off", "-count=1", "-run", "Seed|Demo|seed|demo", "./" + demo[1]], cwd="/repo")
+            r = sh(["go", "test", "-vet=off", "-count=1", "-run", "Seed|Demo|seed|demo", "./" + demo[1]], cwd=REPO)
             out["demo_passes_without_change"] = r.returncode == 0
-        r = sh(["git", "-C", "/repo", "apply", patch])
+        r = sh(["git", "-C", REPO, "apply", patch])
         if r.returncode != 0:
-            r = sh(["git", "-C", "/repo", "apply", "--3way", patch])
-            sh(["git", "-C", "/repo", "reset", "-q"])
+            r = sh(["git", "-C", REPO, "apply", "--3way", patch])
+            sh(["git", "-C", REPO, "reset", "-q"])
             if r.returncode != 0:
                 print(json.dumps({"patch": patch, "error": "patch does not apply: " + r.stderr[-400:], "checks": {}})); return 2
             out["applied_with_3way"] = True
-        r = sh(["go", "build", "./..."], cwd="/repo")
+        r = sh(["go", "build", "./..."], cwd=REPO)
         out["compiles"] = r.returncode == 0
         if demo:
-            r = sh(["go", "test", "-vet=off", "-count=1", "-run", "Seed|Demo|seed|demo", "./" + demo[1]], cwd="/repo")
+            r = sh(["go", "test", "-vet=off", "-count=1", "-run", "Seed|Demo|seed|demo", "./" + demo[1]], cwd=REPO)
             out["demo_fails_with_change"] = r.returncode != 0
             os.remove(demo_dst); demo_dst = None
-        r = sh(["go", "test", "-vet=off", "-count=1", "./..."], cwd="/repo")
+        r = sh(["go", "test", "-vet=off", "-count=1", "./..."], cwd=REPO)
         out["existing_suite_passes"] = r.returncode == 0
         if not out["existing_suite_passes"]:
             out["suite_output"] = (r.stdout + r.stderr)[-1500:]
@@ -69,8 +70,8 @@ def main():
     finally:
         if demo_dst and os.path.exists(demo_dst):
             os.remove(demo_dst)
-        sh(["git", "-C", "/repo", "checkout", "--", "."])
-        sh(["git", "-C", "/repo", "clean", "-fdq"])
+        sh(["git", "-C", REPO, "checkout", "--", "."])
+        sh(["git", "-C", REPO, "clean", "-fdq"])
     print(json.dumps(out, indent=1))
     return 0
 
